@@ -19,10 +19,13 @@ package tracing
 
 import (
 	"io"
+	"sync"
 	"time"
 
 	"github.com/megaease/easegress/pkg/util/fasttime"
 	zipkingo "github.com/openzipkin/zipkin-go"
+	zipkinmodel "github.com/openzipkin/zipkin-go/model"
+	zipkinreporter "github.com/openzipkin/zipkin-go/reporter"
 	zipkingohttp "github.com/openzipkin/zipkin-go/reporter/http"
 )
 
@@ -51,7 +54,38 @@ type (
 	}
 
 	noopCloser struct{}
+
+	// closableReporter drops the spans which are finished after the
+	// reporter was closed. The zipkin HTTP reporter blocks such a Send
+	// forever, while a request which started before a tracer was replaced
+	// (or closed) finishes its span only when it completes.
+	closableReporter struct {
+		zipkinreporter.Reporter
+		mu     sync.RWMutex
+		closed bool
+	}
 )
+
+// Send implements zipkinreporter.Reporter.
+func (r *closableReporter) Send(s zipkinmodel.SpanModel) {
+	r.mu.RLock()
+	defer r.mu.RUnlock()
+	if r.closed {
+		return
+	}
+	r.Reporter.Send(s)
+}
+
+// Close implements zipkinreporter.Reporter.
+func (r *closableReporter) Close() error {
+	r.mu.Lock()
+	defer r.mu.Unlock()
+	if r.closed {
+		return nil
+	}
+	r.closed = true
+	return r.Reporter.Close()
+}
 
 // Validate validates Spec.
 func (spec *ZipkinSpec) Validate() error {
@@ -90,7 +124,7 @@ func New(spec *Spec) (*Tracer, error) {
 		return nil, err
 	}
 
-	reporter := zipkingohttp.NewReporter(spec.Zipkin.ServerURL)
+	reporter := &closableReporter{Reporter: zipkingohttp.NewReporter(spec.Zipkin.ServerURL)}
 
 	tracer, err := zipkingo.NewTracer(
 		reporter,
